@@ -43,7 +43,7 @@ PROBES = [
     "stale_pos_at_compute", "getLayers_checked", "abort_as_SimAbort", "abort_as_MemoryError",
     "abort_as_KeyboardInterrupt", "recompute_after_other_engine_used_same_objects",
     "fits_budget_exactly", "mixed_fresh_and_used_labels", "nodes_called_with_same_list_object",
-    "layers_ge_4", "all_labels_at_one_position",
+    "layers_ge_4", "all_labels_at_one_position", "list_edited_in_place_and_handed_over_again",
 ]
 
 RULE = {
@@ -247,7 +247,8 @@ def gen_plan(rng, tier):
             ops.append(["compute", e])
         elif r < 0.5:
             s = rng.randrange(nsets)
-            mode = rng.choice(["fresh", "same", "permute", "permute", "handover", "mixed", "reversed", "same_list"])
+            mode = rng.choice(["fresh", "same", "permute", "permute", "handover", "mixed", "reversed", "same_list",
+                               "inplace", "inplace"])
             ops.append(["set_labels", e, s, mode, rng.randrange(1 << 30)])
             engine_set[e] = s
         elif r < 0.6:
@@ -672,6 +673,13 @@ def _run(plan):
                         and eng.get("last_list_set") == s:
                     lst = eng["last_list"]  # the very same list object handed over again
                     bump("probe:nodes_called_with_same_list_object")
+                elif mode_eff == "inplace" and eng.get("last_list") is not None:
+                    # the caller keeps one list object, edits it in place (here: replaces
+                    # its content by this set's labels) and hands the same object over again
+                    keep = eng["last_list"]
+                    keep[:] = lst
+                    lst = keep
+                    bump("probe:list_edited_in_place_and_handed_over_again")
                 if mode_eff in ("permute", "mixed") and (mode_eff == "permute" or seed % 2):
                     random.Random(seed).shuffle(lst)
                     eng["permuted"] = True
